@@ -160,128 +160,103 @@ theorem timer_model_accepts (r : TimerRun) (h : TimerWF r) :
     accepts { op := .timer, d := r.d } (timerTrace r) = true :=
   decide_eq_true (timer_model_clause r h)
 
-/-! ### IntervalWithInitial -/
+/-! ### IntervalWithInitial (repaired code, 6a7ef90) -/
 
-/-- what stays true along every possible run when `0 < i` and `p ≤ i` -/
+/-- what stays true along every possible run when `0 < p` -/
 structure IwiInv (sub i p : Nat) (s : IwiSt) : Prop where
   outOK : ∀ o ∈ s.out, o.2.2 ≤ o.1
   vals : s.out.map (·.2.1) = List.range s.v
   needs : ∀ o ∈ s.out, o.2.2 = sub + i + o.2.1 * p
   need : s.need = sub + i + s.v * p
-  pre : s.reset = none → s.need + i ≤ s.oldLb ∧ (0 < s.v → s.need ≤ s.now) ∧ (s.v = 0 → s.need = sub + i)
-  post : ∀ r, s.reset = some r →
-    s.need ≤ s.newLb ∧ r ≤ s.now ∧ (s.stale = false → s.fresh = false → s.need ≤ s.oldLb)
-      ∧ (s.fresh = false → s.newLb = r + p)
-
-theorem iwiInv_init (sub i p : Nat) : IwiInv sub i p (iwiInit sub i) := by
-  refine ⟨by simp [iwiInit], by simp [iwiInit], by simp [iwiInit], by simp [iwiInit], ?_, by simp [iwiInit]⟩
-  intro _
-  simp [iwiInit]; omega
+  alive : s.ended = none
+  pre : s.reset = none → s.v = 0
+  fresh : s.timerDone = false → i ≠ 0 → s.reset = none
+  post : ∀ r, s.reset = some r → s.need ≤ s.newLb
 
 /-- emitting value `v` at an instant `t` that is not before the bound asked keeps the output part -/
-theorem iwiInv_emit_out {sub i p : Nat} {s : IwiSt} (hinv : IwiInv sub i p s) (t : Time) (ht : s.need ≤ t) :
+theorem iwi_emit_out {sub i p : Nat} {s : IwiSt} (ho : ∀ o ∈ s.out, o.2.2 ≤ o.1)
+    (hv : s.out.map (·.2.1) = List.range s.v) (hn : ∀ o ∈ s.out, o.2.2 = sub + i + o.2.1 * p)
+    (hneed : s.need = sub + i + s.v * p) (t : Time) (ht : s.need ≤ t) :
     (∀ o ∈ (s.emit t p).out, o.2.2 ≤ o.1) ∧ (s.emit t p).out.map (·.2.1) = List.range (s.emit t p).v
       ∧ (∀ o ∈ (s.emit t p).out, o.2.2 = sub + i + o.2.1 * p) ∧ (s.emit t p).need = sub + i + (s.emit t p).v * p := by
   refine ⟨?_, ?_, ?_, ?_⟩
-  · intro o ho
-    simp only [IwiSt.emit, List.mem_append, List.mem_singleton] at ho
-    rcases ho with ho | rfl
-    · exact hinv.outOK o ho
+  · intro o ho'
+    simp only [IwiSt.emit, List.mem_append, List.mem_singleton] at ho'
+    rcases ho' with ho' | rfl
+    · exact ho o ho'
     · exact ht
-  · simp only [IwiSt.emit, List.map_append, List.map_cons, List.map_nil, hinv.vals, List.range_succ]
-  · intro o ho
-    simp only [IwiSt.emit, List.mem_append, List.mem_singleton] at ho
-    rcases ho with ho | rfl
-    · exact hinv.needs o ho
-    · exact hinv.need
-  · simp only [IwiSt.emit, hinv.need, Nat.add_mul, Nat.one_mul]; omega
+  · simp only [IwiSt.emit, List.map_append, List.map_cons, List.map_nil, hv, List.range_succ]
+  · intro o ho'
+    simp only [IwiSt.emit, List.mem_append, List.mem_singleton] at ho'
+    rcases ho' with ho' | rfl
+    · exact hn o ho'
+    · exact hneed
+  · simp only [IwiSt.emit, hneed, Nat.add_mul, Nat.one_mul]; omega
 
-theorem iwiInv_step {sub i p : Nat} (hp : p ≤ i) {s s' : IwiSt} {e : IwiEv}
+theorem iwiInv_init (sub i p first : Nat) (hp : 0 < p) (hf : sub ≤ first) : IwiInv sub i p (iwiInit sub i p first) := by
+  have hp' : ¬ p = 0 := by omega
+  unfold iwiInit
+  by_cases hi : i = 0
+  · subst hi
+    simp only [if_true, IwiSt.armAt, hp', if_false]
+    have := iwi_emit_out (sub := sub) (i := 0) (p := p)
+      (s := { now := sub, v := 0, timerDone := false, reset := none, newLb := 0, need := sub + 0, ended := none, out := [] })
+      (by simp) (by simp) (by simp) (by simp) first (by simpa using hf)
+    obtain ⟨o1, o2, o3, o4⟩ := this
+    refine ⟨o1, o2, o3, o4, rfl, ?_, ?_, ?_⟩
+    · intro h; simp at h
+    · intro _ h; exact absurd rfl h
+    · intro r hr
+      simp only [Option.some.injEq] at hr; subst hr
+      simp only [IwiSt.emit]; omega
+  · simp only [hi, if_false]
+    exact ⟨by simp, by simp, by simp, by simp, rfl, fun _ => rfl, fun _ _ => rfl, by simp⟩
+
+theorem iwiInv_step {sub i p : Nat} (hp : 0 < p) {s s' : IwiSt} {e : IwiEv}
     (hinv : IwiInv sub i p s) (hstep : iwiStep sub i p s e = some s') : IwiInv sub i p s' := by
+  have hp' : ¬ p = 0 := by omega
   cases e with
   | timer t =>
     simp only [iwiStep] at hstep
     split at hstep
     next hc =>
-      obtain ⟨hnone, hnow, hti⟩ := hc
-      have hnone' : s.reset = none := by simpa using hnone
-      cases hstep
-      obtain ⟨h1, h2, h3⟩ := hinv.pre hnone'
-      have hneed : s.need ≤ t := by
-        rcases Nat.eq_zero_or_pos s.v with hv | hv
-        · have := h3 hv; omega
-        · have := h2 hv; omega
-      obtain ⟨o1, o2, o3, o4⟩ := iwiInv_emit_out hinv t hneed
-      refine ⟨o1, o2, o3, o4, ?_, ?_⟩
-      · intro h; simp at h
-      · intro r hr
-        simp only [Option.some.injEq] at hr
-        subst hr
-        simp only [IwiSt.emit]
-        refine ⟨by omega, Nat.le_refl _, ?_, ?_⟩
-        · intro _ _; omega
-        · intro _; trivial
-    next => cases hstep
-  | oldTick t =>
-    simp only [iwiStep] at hstep
-    split at hstep
-    next hnone =>
+      obtain ⟨htd, _, hnow, hti⟩ := hc
       split at hstep
-      next hc =>
-        obtain ⟨hnow, hlb⟩ := hc
+      next hi0 =>
         cases hstep
-        obtain ⟨h1, h2, h3⟩ := hinv.pre hnone
-        obtain ⟨o1, o2, o3, o4⟩ := iwiInv_emit_out hinv t (by omega)
-        refine ⟨o1, o2, o3, o4, ?_, ?_⟩
-        · intro _
-          simp only [IwiSt.emit]
-          refine ⟨by omega, fun _ => by omega, fun h => by omega⟩
+        exact ⟨hinv.outOK, hinv.vals, hinv.needs, hinv.need, hinv.alive, hinv.pre, fun h => by simp at h, hinv.post⟩
+      next hi0 =>
+        cases hstep
+        have hnone := hinv.fresh htd hi0
+        have hv0 := hinv.pre hnone
+        have hneed : s.need ≤ t := by have := hinv.need; rw [hv0] at this; simp at this; omega
+        obtain ⟨o1, o2, o3, o4⟩ := iwi_emit_out hinv.outOK hinv.vals hinv.needs hinv.need t hneed
+        simp only [IwiSt.armAt, hp', if_false]
+        refine ⟨o1, o2, o3, o4, hinv.alive, ?_, fun h => by simp at h, ?_⟩
+        · intro h; simp at h
         · intro r hr
-          simp only [IwiSt.emit] at hr
-          rw [hnone] at hr; cases hr
-      next => cases hstep
-    next r hsome =>
-      split at hstep
-      next hc =>
-        obtain ⟨hnow, hst, hfr, hlb⟩ := hc
-        cases hstep
-        obtain ⟨p1, p2, p3, p4⟩ := hinv.post r hsome
-        have hn : s.need ≤ s.oldLb := p3 hst hfr
-        obtain ⟨o1, o2, o3, o4⟩ := iwiInv_emit_out hinv t (by omega)
-        refine ⟨o1, o2, o3, o4, ?_, ?_⟩
-        · intro h; simp only [IwiSt.emit] at h; rw [hsome] at h; cases h
-        · intro r' hr'
-          simp only [IwiSt.emit] at hr'
-          rw [hsome] at hr'; cases hr'
-          simp only [IwiSt.emit]
-          have := p4 hfr
-          refine ⟨by omega, by omega, ?_, ?_⟩
-          · intro h; cases h
-          · intro _; exact this
-      next => cases hstep
-  | newTick t =>
+          simp only [Option.some.injEq] at hr; subst hr
+          simp only [IwiSt.emit]; omega
+    next => cases hstep
+  | tick t =>
     simp only [iwiStep] at hstep
     split at hstep
     next => cases hstep
     next r hsome =>
       split at hstep
       next hc =>
-        obtain ⟨hnow, hlb⟩ := hc
+        obtain ⟨_, hnow, hlb⟩ := hc
         cases hstep
-        obtain ⟨p1, p2, p3, p4⟩ := hinv.post r hsome
-        obtain ⟨o1, o2, o3, o4⟩ := iwiInv_emit_out hinv t (by omega)
-        refine ⟨o1, o2, o3, o4, ?_, ?_⟩
+        have p1 := hinv.post r hsome
+        obtain ⟨o1, o2, o3, o4⟩ := iwi_emit_out hinv.outOK hinv.vals hinv.needs hinv.need t (by omega)
+        refine ⟨o1, o2, o3, o4, hinv.alive, ?_, ?_, ?_⟩
         · intro h; simp only [IwiSt.emit] at h; rw [hsome] at h; cases h
+        · intro h1 h2; simp only [IwiSt.emit] at h1 ⊢; exact hinv.fresh h1 h2
         · intro r' hr'
-          simp only [IwiSt.emit] at hr'
-          rw [hsome] at hr'; cases hr'
-          simp only [IwiSt.emit]
-          refine ⟨by omega, by omega, ?_, ?_⟩
-          · intro _ h; cases h
-          · intro h; cases h
+          simp only [IwiSt.emit]; omega
       next => cases hstep
 
-theorem iwiInv_run {sub i p : Nat} (hp : p ≤ i) : ∀ (evs : List IwiEv) (s s' : IwiSt),
+theorem iwiInv_run {sub i p : Nat} (hp : 0 < p) : ∀ (evs : List IwiEv) (s s' : IwiSt),
     IwiInv sub i p s → iwiRunFrom sub i p s evs = some s' → IwiInv sub i p s'
   | [], s, s', hinv, h => by simp [iwiRunFrom] at h; exact h ▸ hinv
   | e :: es, s, s', hinv, h => by
@@ -290,24 +265,25 @@ theorem iwiInv_run {sub i p : Nat} (hp : p ≤ i) : ∀ (evs : List IwiEv) (s s'
     next s1 hs1 => exact iwiInv_run hp es s1 s' (iwiInv_step hp hinv hs1) h
     next => cases h
 
-/-- **IntervalWithInitial, partial**: for `0 < initial` and `interval ≤ initial`, value `k` is never
-    delivered before `initial + k·interval` — for every order in which the `select` takes the timer
-    and the two tick schedules, however late.
-
-    Full statement (FALSE on the pinned tree, see `iwi_zero_errors` and `iwi_race_witness` below):
-      ∀ r, (∀ possible environment) → Clause {intervalWithInitial, r.p, r.i} (trace r)
-    Excluded classes, both listed as known findings: `initial = 0`, and `interval > initial`. -/
-theorem iwi_model_clause_partial (r : IwiRun) (hi : 0 < r.i) (hp : r.p ≤ r.i)
+/-- **IntervalWithInitial** (code as repaired by 6a7ef90), every `initial ≥ 0` and every
+    `interval > 0`: value `k` is never delivered before `initial + k·interval`, never an Error, for
+    every instant at which the `select` takes the timer and the ticks, however late.
+    (Before 6a7ef90: `initial = 0` errored, and `interval > initial` raced — the theorem was partial.) -/
+theorem iwi_model_clause (r : IwiRun) (hp : 0 < r.p)
     (hstop : ∀ c x, r.stop = some (c, x) → c ≤ x)
-    (hfair : ∀ c x s, r.stop = some (c, x) → iwiRunFrom r.sub r.i r.p (iwiInit r.sub r.i) r.evs = some s →
+    (hfair : ∀ c x s, r.stop = some (c, x) → iwiRunFrom r.sub r.i r.p (iwiInit r.sub r.i r.p r.first) r.evs = some s →
       (s.out.filter (fun o => decide (c < o.1))).length ≤ cancelSlack)
     (tr : TimedTrace) (htr : iwiTrace r = some tr) :
     Clause { op := .intervalWithInitial, d := r.p, d2 := r.i } tr := by
   unfold iwiTrace at htr
-  have hi' : ¬ r.i = 0 := by omega
-  simp only [hi', if_false, Option.map_eq_some_iff] at htr
+  split at htr
+  next => cases htr
+  next hfirst =>
+  simp only [Option.map_eq_some_iff] at htr
   obtain ⟨s, hs, rfl⟩ := htr
-  have hinv := iwiInv_run hp r.evs _ s (iwiInv_init r.sub r.i r.p) hs
+  have hinv := iwiInv_run hp r.evs _ s (iwiInv_init r.sub r.i r.p r.first hp (by omega)) hs
+  have hend : (s.ended.map (Ev.at s.now)).toList = [] := by rw [hinv.alive]; rfl
+  simp only [hend, List.append_nil]
   refine ⟨grammarOK_down _ r.unsub _ rfl, silentOK_stopCut _ r.stop r.unsub _ rfl rfl ?_, ?_⟩
   · intro c x hst
     rw [lateCount_append]
@@ -335,8 +311,7 @@ theorem iwi_model_clause_partial (r : IwiRun) (hi : 0 < r.i) (hp : r.p ≤ r.i)
       have hval : o.2.1 = k := by
         have : (s.out.map (·.2.1))[k]? = some o.2.1 := by simp [ho]
         rw [hinv.vals] at this
-        have hk' := List.getElem?_eq_some_iff.1 this
-        obtain ⟨hk1, hk2⟩ := hk'
+        obtain ⟨hk1, hk2⟩ := List.getElem?_eq_some_iff.1 this
         simpa using hk2.symm
       have hb := hinv.outOK o hmem
       have hn := hinv.needs o hmem
@@ -349,46 +324,31 @@ theorem iwi_model_clause_partial (r : IwiRun) (hi : 0 < r.i) (hp : r.p ≤ r.i)
     simp only [IwiAt, Ev.at]
     exact cancelledBy_stopCut _ c x r.unsub (by simp [hs']) hcx
 
-/-- **IntervalWithInitial(0, p) always ends in an Error** (`time.NewTicker(0)` panics before the
-    `initial == 0` branch): no value is ever delivered, whatever the period and the environment. -/
-theorem iwi_zero_errors (p sub : Nat) (evs : List IwiEv) :
-    (iwiTrace { i := 0, p := p, sub := sub, evs := evs, stop := none, unsub := none }).map (·.dels)
-      = some [Ev.at sub (.error errOther)] := by
-  simp [iwiTrace]
+/-- the repaired ticker is silent until `Reset`: no environment can make a tick precede the timer
+    branch (what `iwi_race_witness` showed for the code before 6a7ef90 is no longer a run) -/
+theorem iwi_no_tick_before_reset (sub i p first : Nat) (hi : 0 < i) (t : Time) (evs : List IwiEv) :
+    iwiRunFrom sub i p (iwiInit sub i p first) (.tick t :: evs) = none := by
+  have hi' : ¬ i = 0 := by omega
+  simp [iwiRunFrom, iwiStep, iwiInit, hi']
 
-/-- … and such a trace is not one C16 accepts of a periodic source. -/
-theorem iwi_zero_rejected (p sub : Nat) (evs : List IwiEv) (tr : TimedTrace)
-    (h : iwiTrace { i := 0, p := p, sub := sub, evs := evs, stop := none, unsub := none } = some tr) :
-    ¬ Clause { op := .intervalWithInitial, d := p, d2 := 0 } tr := by
-  simp [iwiTrace] at h
-  subst h
-  intro hc
-  have := hc.2.2 0 (by simp)
-  simp [OpAt, IwiAt, Ev.at] at this
+/-- `initial = 0`: value 0 is sent by Subscribe itself, then value `k` not before `k` periods -/
+theorem iwi_zero_emits_at_once (p sub first : Nat) :
+    (iwiTrace { i := 0, p := p + 1, sub := sub, first := sub + first, evs := [], stop := none, unsub := none }).map (·.dels)
+      = some [Ev.at (sub + first) (.next 0)] := by
+  simp [iwiTrace, iwiInit, iwiRunFrom, IwiSt.emit, IwiSt.armAt, down, gateT, cutAt, stopAttempt, Ev.at]
 
-/-- **the 2·initial ticker races the initial timer** when `interval > initial`: with `initial = 1`,
-    `interval = 10`, a goroutine that wakes up at instant 2 finds both `timer.C` and `ticker.C` ready;
-    taking the tick first gives value 0 at 2 and value 1 (timer branch) at 2 — nine units earlier than
-    `initial + 1·interval = 11`. Every step respects "never early". -/
-theorem iwi_race_witness :
-    (iwiTrace { i := 1, p := 10, sub := 0, evs := [.oldTick 2, .timer 2], stop := none, unsub := none }).map (·.dels)
-      = some [Ev.at 2 (.next 0), Ev.at 2 (.next 1)] := by decide
-
-theorem iwi_race_rejected :
-    ∃ tr, iwiTrace { i := 1, p := 10, sub := 0, evs := [.oldTick 2, .timer 2], stop := none, unsub := none } = some tr
-      ∧ ¬ Clause { op := .intervalWithInitial, d := 10, d2 := 1 } tr :=
-  ⟨_, rfl, by decide⟩
-
-/-- the same with the timer branch first: the tick of the first schedule that is still buffered when
-    `Reset` is called is received right after -/
-theorem iwi_stale_tick_witness :
-    (iwiTrace { i := 1, p := 10, sub := 0, evs := [.timer 2, .oldTick 2], stop := none, unsub := none }).map (·.dels)
-      = some [Ev.at 2 (.next 0), Ev.at 2 (.next 1)] := by decide
-
--- non-vacuity of the partial theorem: a late, racy but possible run with interval ≤ initial
-example : (iwiTrace { i := 4, p := 3, sub := 0, evs := [.oldTick 9, .timer 9, .newTick 12, .newTick 16], stop := some (17, 18), unsub := none }).map (·.dels)
-    = some [Ev.at 9 (.next 0), Ev.at 9 (.next 1), Ev.at 12 (.next 2), Ev.at 16 (.next 3), Ev.at 18 .complete] := by decide
+-- non-vacuity: interval (10) > initial (1), a goroutine that wakes late: value 1 still waits for a whole period
+example : (iwiTrace { i := 1, p := 10, sub := 0, first := 0, evs := [.timer 2, .tick 12, .tick 25], stop := some (26, 27), unsub := none }).map (·.dels)
+    = some [Ev.at 2 (.next 0), Ev.at 12 (.next 1), Ev.at 25 (.next 2), Ev.at 27 .complete] := by decide
 -- an environment that asks for an early tick is not a run at all
-example : iwiTrace { i := 4, p := 3, sub := 0, evs := [.timer 4, .newTick 6], stop := none, unsub := none } = none := by decide
+example : iwiTrace { i := 1, p := 10, sub := 0, first := 0, evs := [.timer 2, .tick 11], stop := none, unsub := none } = none := by decide
+-- initial = 0, the ignored timer case, ticks from the Reset made by Subscribe
+example : (iwiTrace { i := 0, p := 3, sub := 5, first := 6, evs := [.timer 6, .tick 9, .tick 13], stop := none, unsub := none }).map (·.dels)
+    = some [Ev.at 6 (.next 0), Ev.at 9 (.next 1), Ev.at 13 (.next 2)] := by decide
+-- interval = 0 is outside the theorem: `Reset(0)` panics; the goroutine dies and the deferred Complete
+-- follows value 0 without any cancellation — not a trace C16 accepts of a periodic source
+example : ∃ tr, iwiTrace { i := 2, p := 0, sub := 0, first := 0, evs := [.timer 2], stop := none, unsub := none } = some tr
+    ∧ tr.dels = [Ev.at 2 (.next 0), Ev.at 2 .complete] ∧ ¬ Clause { op := .intervalWithInitial, d := 0, d2 := 2 } tr :=
+  ⟨_, rfl, by decide, by decide⟩
 
 end Ro.Timed
